@@ -291,3 +291,53 @@ pub fn ownership_audit(db: &redb::Database) -> Ownership {
     }
     out
 }
+
+// ---------------------------------------------------------------------------------------------
+// pins: pages reachable from a reader's or savepoint's root must stay allocated and unchanged
+
+pub type Pins = Vec<(PageId, u64)>;
+
+/// The pages reachable from the current latest data root, with a hash of their bytes. Taken
+/// right after begin_read() / ephemeral_savepoint() in the single-threaded engine, where the
+/// latest root is exactly the root the new reader or savepoint captured.
+pub fn take_pins(db: &redb::Database) -> Option<Pins> {
+    let (mem, _) = db.verif_snapshot();
+    let geo = Geometry {
+        page_size: mem.page_size,
+        region_header_pages: mem.region_header_pages,
+        region_max_data_pages: mem.region_max_data_pages,
+        full_regions: mem.full_regions,
+        trailing_pages: mem.trailing_pages,
+    };
+    let root = mem.data_root.map(|(p, c, l)| Root { page: PageId::from_u64(p), checksum: c, length: l });
+    let src = FnSource(|_g: &Geometry, p: PageId| {
+        std::panic::catch_unwind(std::panic::AssertUnwindSafe(|| db.verif_read_page(p.to_u64()))).ok().flatten()
+    });
+    let forest = fsck::decode_forest(&src, &geo, root, None);
+    if !forest.errors.is_empty() {
+        return None;
+    }
+    let mut pins = Vec::with_capacity(forest.data_pages.len());
+    for p in forest.data_pages {
+        let bytes = db.verif_read_page(p.to_u64())?;
+        pins.push((p, crate::rng::fnv(&bytes)));
+    }
+    Some(pins)
+}
+
+/// None if every pinned page is still allocated and byte-identical.
+pub fn check_pins(db: &redb::Database, pins: &Pins, alloc: &[Vec<bool>]) -> Option<String> {
+    for (p, h) in pins {
+        let allocated = (p.start0()..p.start0() + p.len0()).all(|i| alloc.get(p.region as usize).and_then(|r| r.get(i as usize)).copied().unwrap_or(false));
+        if !allocated {
+            return Some(format!("page {p} is still referenced by a live snapshot but is free in the allocator"));
+        }
+        let bytes = std::panic::catch_unwind(std::panic::AssertUnwindSafe(|| db.verif_read_page(p.to_u64()))).ok().flatten();
+        match bytes {
+            Some(b) if crate::rng::fnv(&b) == *h => {}
+            Some(_) => return Some(format!("page {p} is still referenced by a live snapshot but its bytes changed")),
+            None => return Some(format!("page {p} is still referenced by a live snapshot but can no longer be read")),
+        }
+    }
+    None
+}
